@@ -481,6 +481,7 @@ func runHarness(prog *ssa.Program, fn *ssa.Function, hc *HarnessCfg, known []Kno
 					})
 				}()
 				if m != nil {
+					m.killCo()
 					res.mu.Lock()
 					for f := range m.funcsRun {
 						if _, ok := res.Funcs[f.String()]; !ok {
